@@ -1,13 +1,17 @@
 (* C04 - engine instances are isolated; interleaved queries do not interfere.
    Only statements; every proof is `exact <lemma>` to a lemma proved in Engine/Isolation.v, Engine/Slots.v,
-   Engine/SlotsReach.v, Engine/CursorFrame.v, Engine/Frame.v (examples: Engine/IsolationExamples.v).
+   Engine/SlotsReach.v, Engine/Footprint.v, Engine/CursorFrame.v, Engine/Frame.v (examples: Engine/IsolationExamples.v,
+   Engine/SlotsExamples.v).
 
    Model (Engine/World.v): a world = n engine records (atom table, fact store, eval_context, reserved names,
    the query generators the caller holds) + ONE heap of variable bindings shared by all engines (a Variable
    is not owned by an engine in the code either).  A step = (engine id, operation); operations: atom,
    assert (assert_fact/asserta/assertz), retract(all), register_function, load_script (overwrite / chained),
    clear, start / next / close-or-drop / drain of a query generator in a slot, peek (get_value of terms over the
-   user's variables between two steps).  The thread part of the property is NOT a theorem: the model's schedules
+   user's variables between two steps).  A query runs clause bodies that call facts, rules, = and the database
+   builtins asserta/1, assertz/1, retract/1, retractall/1 (copy-on-write fact lists, stored copies with variables of
+   their own, retract by identity in the current list): a generator step may write the fact store of ITS engine.
+   The thread part of the property is NOT a theorem: the model's schedules
    are at operation (= generator step) granularity; threads are a test of the harness (run (c)).
    Pe n i = the cells of engine i (its user variables and everything its queries allocate);
    fP P h / fN P h = the bindings of the heap h whose cell is / is not in P (order kept);
@@ -18,8 +22,8 @@
 From Coq Require Import String.
 From Coq Require Import List Arith Bool.
 Import ListNotations.
-From YP Require Import Base.Str Term.Term Unify.Unify Engine.Frame Engine.World Engine.CursorFrame
-  Engine.Isolation Engine.Slots Engine.SlotsReach Engine.IsolationExamples.
+From YP Require Import Base.Str Term.Term Unify.Unify Engine.Frame Engine.Db Engine.World Engine.CursorFrame
+  Engine.Isolation Engine.Footprint Engine.Slots Engine.SlotsReach Engine.IsolationExamples Engine.SlotsExamples.
 
 (* the initial world of any number of engines satisfies the invariant, and every step keeps it (see step_local) *)
 Theorem C04_init_world_inv : forall n, winv (init_world n).
@@ -113,25 +117,64 @@ Print Assumptions C04_merge_eq_back_to_back.
 
 (* 3. same_engine_disjoint, engine level: any number of generators of ONE engine, suspended simultaneously, over
       pairwise disjoint sets of cells PQ q (sinv: the generator in slot q holds terms over PQ q and allocates in
-      PQ q; heap values of PQ q cells are over PQ q).  For EVERY sequence of next / close / drain operations on
-      the slots, what is observed on slot q is what is observed when only the operations on slot q are run, on
-      q's part of the heap.  (These operations do not write the database in the model: read-only queries.) *)
+      PQ q; heap values of PQ q cells are over PQ q).  Generators of one engine share its fact store, and clause bodies
+      may write it.  Every access of a step to the fact store is in the log of the step (step_log: key = (name, arity),
+      read or written).  K = any set of keys.  foot_ok K q: in this run every step on slot q touches only keys of K and
+      every step on another slot WRITES only keys outside K (it may read anything).  Then, for EVERY sequence of next /
+      close / drain operations on the slots, what is observed on slot q is what is observed when only the operations on
+      slot q are run, on q's part of the heap.  (q itself may write, inside K.) *)
+Theorem C04_same_engine_slots_K : forall n i PQ,
+  (forall q q' v, q <> q' -> PQ q v = true -> PQ q' v = false) ->
+  forall K fuel ops e h q, Forall qop ops -> sinv n i PQ e h -> foot_ok n i K q fuel ops e h ->
+  pick q ops (snd (erun n i fuel ops e h)) = snd (erun n i fuel (filter (is_slot q) ops) e (fP (PQ q) h)).
+Proof. exact same_engine_slots_K. Qed.
+Print Assumptions C04_same_engine_slots_K.
+
+(* the invariant form: also the generator left in slot q and q's part of the heap are those of the run alone, and the fact
+   stores of the two runs agree on K (simK: same definitions, same facts under every key of K, same generator in q),
+   from any engine record that agrees with e in this sense *)
+Theorem C04_slots_alone_K : forall n i PQ,
+  (forall q q' v, q <> q' -> PQ q v = true -> PQ q' v = false) ->
+  forall K fuel q ops e h e' h' bs, Forall qop ops -> sinv n i PQ e h -> erun n i fuel ops e h = (e', h', bs) ->
+  foot_ok n i K q fuel ops e h ->
+  sinv n i PQ e' h' /\
+  forall ea, simK K q e ea ->
+    exists ea', erun n i fuel (filter (is_slot q) ops) ea (fP (PQ q) h) = (ea', fP (PQ q) h', pick q ops bs)
+                /\ simK K q e' ea'.
+Proof. exact slots_alone_K. Qed.
+Print Assumptions C04_slots_alone_K.
+
+(* the two facts about one generator step behind it: on two fact stores that agree on K, a step that touches only K gives the
+   same generator, heap, result and log, and stores that agree on K again; a step that writes only outside K leaves the
+   store as it was on K *)
+Theorem C04_step_footprint_agree : forall K fuel d1 d2 fresh h c c' h' r lg d1', dbK K d1 d2 ->
+  cnext fuel d1 fresh h c = (c', h', r, lg, d1') -> Forall (inK K) lg ->
+  exists d2', cnext fuel d2 fresh h c = (c', h', r, lg, d2') /\ dbK K d1' d2'.
+Proof. exact cnext_agree. Qed.
+Print Assumptions C04_step_footprint_agree.
+
+Theorem C04_step_footprint_writes : forall K fuel d fresh h c c' h' r lg d',
+  cnext fuel d fresh h c = (c', h', r, lg, d') -> Forall (wrOut K) lg -> dbK K d d'.
+Proof. exact cnext_writes. Qed.
+Print Assumptions C04_step_footprint_writes.
+
+(* read-only queries (the case the property text promises): nowrite = no step of the run writes the fact store.  Then
+   every slot q observes what it observes alone (K = all keys). *)
 Theorem C04_same_engine_slots : forall n i PQ,
   (forall q q' v, q <> q' -> PQ q v = true -> PQ q' v = false) ->
-  forall fuel ops e h q, Forall qop ops -> sinv n i PQ e h ->
+  forall fuel ops e h q, Forall qop ops -> sinv n i PQ e h -> nowrite n i fuel ops e h ->
   pick q ops (snd (erun n i fuel ops e h)) = snd (erun n i fuel (filter (is_slot q) ops) e (fP (PQ q) h)).
 Proof. exact same_engine_slots. Qed.
 Print Assumptions C04_same_engine_slots.
 
-(* the invariant form: also the generator left in slot q and q's part of the heap are those of the run alone,
-   from any engine record that agrees on the database and on slot q *)
 Theorem C04_slots_alone : forall n i PQ,
   (forall q q' v, q <> q' -> PQ q v = true -> PQ q' v = false) ->
   forall fuel ops e h e' h' bs, Forall qop ops -> sinv n i PQ e h -> erun n i fuel ops e h = (e', h', bs) ->
+  nowrite n i fuel ops e h ->
   sinv n i PQ e' h' /\
-  forall q ea, sim q e ea ->
+  forall q ea, simK (fun _ => true) q e ea ->
     exists ea', erun n i fuel (filter (is_slot q) ops) ea (fP (PQ q) h) = (ea', fP (PQ q) h', pick q ops bs)
-                /\ sim q e' ea'.
+                /\ simK (fun _ => true) q e' ea'.
 Proof. exact slots_alone. Qed.
 Print Assumptions C04_slots_alone.
 
@@ -168,37 +211,58 @@ Print Assumptions C04_reach_sinv.
 
 (* the last sentence of the property text, self-contained: a new engine, ANY history pre of operations of all kinds in
    which queries are started over variables not occurring in the other queries held, then ANY sequence of next / close /
-   drain on the slots: what is observed on slot q is what is observed when only the operations on q are run *)
+   drain on the slots: what is observed on slot q is what is observed when only the operations on q are run, if q touches
+   only K and the others write only outside K ... *)
+Theorem C04_disjoint_queries_alone_K : forall n i, i < n -> forall K fuel pre ops e h bs0 q,
+  hist_ok n i fuel pre init_engine [] -> erun n i fuel pre init_engine [] = (e, h, bs0) -> Forall qop ops ->
+  foot_ok n i K q fuel ops e h ->
+  pick q ops (snd (erun n i fuel ops e h))
+  = snd (erun n i fuel (filter (is_slot q) ops) e (fP (PQ_of n i e q) h)).
+Proof. exact disjoint_queries_alone_K. Qed.
+Print Assumptions C04_disjoint_queries_alone_K.
+
+(* ... in particular if no step writes (side-effect free queries) *)
 Theorem C04_disjoint_queries_alone : forall n i, i < n -> forall fuel pre ops e h bs0 q,
   hist_ok n i fuel pre init_engine [] -> erun n i fuel pre init_engine [] = (e, h, bs0) -> Forall qop ops ->
+  nowrite n i fuel ops e h ->
   pick q ops (snd (erun n i fuel ops e h))
   = snd (erun n i fuel (filter (is_slot q) ops) e (fP (PQ_of n i e q) h)).
 Proof. exact disjoint_queries_alone. Qed.
 Print Assumptions C04_disjoint_queries_alone.
 
+(* ... and NOT without such a condition: the literal reading of the last sentence of the property text ("simultaneously
+   suspended queries over disjoint variables each produce the answers they produce when run alone") for queries with
+   side effects is false of the model - and of the code, see notes/C04.md: p(a); g0 = query p(X0); g1 = query
+   assertz(p(b)); next(g1); then g0 answers a, b, but a alone (the snapshot of p/1 is taken at the first next). *)
+Theorem C04_disjoint_queries_alone_writes_refuted :
+  exists n i fuel pre ops e h bs0 q, i < n /\
+    hist_ok n i fuel pre init_engine [] /\ erun n i fuel pre init_engine [] = (e, h, bs0) /\ Forall qop ops /\
+    pick q ops (snd (erun n i fuel ops e h))
+    <> snd (erun n i fuel (filter (is_slot q) ops) e (fP (PQ_of n i e q) h)).
+Proof. exact disjoint_queries_alone_writes_refuted. Qed.
+Print Assumptions C04_disjoint_queries_alone_writes_refuted.
+
 (* both halves of the property in one statement: any number of engines, ANY schedule; the operations of engine i are a
    history pre (any operations; queries started over variables not occurring in the other queries it holds) followed by
    next / close / drain operations ops, interleaved in any way with the operations of the other engines.  What engine i
    observes on slot q during ops is what that slot shows when it is the only one advanced, in an engine that ran alone. *)
+Theorem C04_world_disjoint_queries_alone_K : forall K fuel n i sched pre ops e h bs0 q, i < n ->
+  map snd (only i sched) = pre ++ ops ->
+  hist_ok n i fuel pre init_engine [] -> erun n i fuel pre init_engine [] = (e, h, bs0) -> Forall qop ops ->
+  foot_ok n i K q fuel ops e h ->
+  pick q ops (skipn (length pre) (proj i (snd (wrun fuel (init_world n) sched))))
+  = snd (erun n i fuel (filter (is_slot q) ops) e (fP (PQ_of n i e q) h)).
+Proof. exact world_disjoint_queries_alone_K. Qed.
+Print Assumptions C04_world_disjoint_queries_alone_K.
+
 Theorem C04_world_disjoint_queries_alone : forall fuel n i sched pre ops e h bs0 q, i < n ->
   map snd (only i sched) = pre ++ ops ->
   hist_ok n i fuel pre init_engine [] -> erun n i fuel pre init_engine [] = (e, h, bs0) -> Forall qop ops ->
+  nowrite n i fuel ops e h ->
   pick q ops (skipn (length pre) (proj i (snd (wrun fuel (init_world n) sched))))
   = snd (erun n i fuel (filter (is_slot q) ops) e (fP (PQ_of n i e q) h)).
 Proof. exact world_disjoint_queries_alone. Qed.
 Print Assumptions C04_world_disjoint_queries_alone.
-
-(* the same for two bare generators (cursors) over one database: every interleaving of their next() calls
-   gives each the result sequence it has alone *)
-Theorem C04_same_engine_disjoint : forall (P1 P2 : nat -> bool) (f1 f2 : nat -> nat),
-  (forall v, P1 v = true -> P2 v = false) ->
-  (forall k, P1 (f1 k) = true) -> (forall k, P2 (f2 k) = true) ->
-  forall fuel d sched h c1 c2,
-  closed P1 h -> closed P2 h -> cgood P1 c1 -> cgood P2 c2 ->
-  run2 fuel d f1 f2 h c1 c2 sched =
-  (run1 fuel d f1 (fP P1 h) c1 (times true sched), run1 fuel d f2 (fP P2 h) c2 (times false sched)).
-Proof. exact same_engine_disjoint. Qed.
-Print Assumptions C04_same_engine_disjoint.
 
 (* the dereference / unification frame property everything rests on (Engine/Frame.v): over a heap that is closed
    for P, unifying terms over P on the heap cut down to P gives the cut-down result, and the result only adds
@@ -238,3 +302,27 @@ Example C04_nonvacuous_reach :
   /\ pick 0 xops (snd (erun 1 0 50 xops xe [])) = [xans "a"; xans "b"; otag "done" []]
   /\ pick 1 xops (snd (erun 1 0 50 xops xe [])) = [xans "a"; xans "b"; otag "closed" []; otag "done" []].
 Proof. exact ex_reach. Qed.
+
+(* non-vacuity of the footprint theorem: p(a). p(b). q(c). q(c).  w(X) :- p(X), assertz(q(X)), retract(q(c)).  Slot 0 holds
+   p(X0), slot 1 holds w(X1); K = {p/1}.  The steps of slot 1 assert and retract facts of q/1 while slot 0 is suspended;
+   foot_ok holds; slot 0 sees a, b, done as alone; the fact store q/1 changed from [c; c] to [a; b] *)
+Example C04_nonvacuous_footprint :
+  hist_ok 1 0 80 wprep init_engine [] /\ Forall qop wops
+  /\ foot_ok 1 0 wK 0 80 wops we []
+  /\ pick 0 wops (snd (erun 1 0 80 wops we [])) = [xans "a"; xans "b"; otag "done" []]
+  /\ pick 1 wops (snd (erun 1 0 80 wops we [])) = [xans "a"; xans "a"; otag "done" []; otag "done" []]
+  /\ map fargs (find_facts (edb we) xq 1) = [[xA "c"]; [xA "c"]]
+  /\ map fargs (find_facts (edb (fst (fst (erun 1 0 80 wops we [])))) xq 1) = [[xA "a"]; [xA "b"]]
+  /\ pick 0 wops (snd (erun 1 0 80 wops we [])) = snd (erun 1 0 80 (filter (is_slot 0) wops) we []).
+Proof. exact ex_foot. Qed.
+
+(* the witness of the refutation: interleaved the reader sees a, b, done; alone a, done, done *)
+Example C04_refuted_values :
+  let e := fst (fst (erun 1 0 50 rprep init_engine [])) in
+  pick 0 rops (snd (erun 1 0 50 rops e [])) = [xans "a"; xans "b"; otag "done" []]
+  /\ snd (erun 1 0 50 (filter (is_slot 0) rops) e []) = [xans "a"; otag "done" []; otag "done" []].
+Proof. exact ex_refuted_values. Qed.
+
+(* the hypotheses of the read-only theorem C04_same_engine_slots hold for the run of C04_nonvacuous_slots *)
+Example C04_nonvacuous_readonly : nowrite 1 0 50 xops xe [] /\ Forall qop xops /\ sinv 1 0 xPQ xe [].
+Proof. exact ex_nowrite. Qed.
